@@ -24,6 +24,7 @@ import (
 	"strconv"
 	"strings"
 	"testing"
+	"time"
 
 	sdkmath "cosmossdk.io/math"
 	storetypes "cosmossdk.io/store/types"
@@ -39,6 +40,7 @@ import (
 	authsigning "github.com/cosmos/cosmos-sdk/x/auth/signing"
 	authtypes "github.com/cosmos/cosmos-sdk/x/auth/types"
 	govtypes "github.com/cosmos/cosmos-sdk/x/gov/types"
+	slashingtypes "github.com/cosmos/cosmos-sdk/x/slashing/types"
 	"github.com/ethereum/go-ethereum/common"
 
 	"github.com/functionx/fx-core/v8/testutil/helpers"
@@ -145,6 +147,14 @@ func newWorld(t *testing.T, s *hx.Suite, out *hx.Out, rng *rand.Rand, chain stri
 	w.caller = helpers.GenHexAddress()
 	s.MintToken(w.caller.Bytes(), rich)
 
+	// staking unbonding time of two block intervals of the harness clock, so that an undelegation made by a governance
+	// removal matures after a few blocks (UnbondedOracle refuses while an unbonding delegation exists)
+	if sp, err := s.App.StakingKeeper.GetParams(s.Ctx); err == nil {
+		sp.UnbondingTime = 2 * blockInterval
+		if err = s.App.StakingKeeper.SetParams(s.Ctx, sp); err != nil {
+			t.Fatalf("staking SetParams: %v", err)
+		}
+	}
 	p := w.k.GetParams(s.Ctx)
 	p.DelegateThreshold = crosschaintypes.NewDelegateAmount(w.threshold)
 	p.DelegateMultiple = mult
@@ -650,7 +660,7 @@ func (w *world) opUnbond(o int) string {
 	}
 	before := w.snapshot()
 	res, _ := w.route(&crosschaintypes.MsgUnbondedOracle{ChainName: w.chain, OracleAddress: oa.String()})
-	dep := !(res == "err:dep" && ubd)
+	dep := res != "err:dep"
 	if res == "ok" {
 		w.unbonded[o] = true
 	}
@@ -690,7 +700,12 @@ func (w *world) opEndBlock(blocks int64) string {
 	}
 	osn := w.k.GetLatestOracleSetNonce(w.s.Ctx)
 	before := w.snapshot()
-	res := hx.Try(func() error { w.s.Commit(blocks); return nil })
+	res := hx.Try(func() error {
+		for i := int64(0); i < blocks; i++ {
+			w.block()
+		}
+		return nil
+	})
 	var slashed []string
 	for _, o := range w.k.GetAllOracles(w.s.Ctx, false) {
 		if o.SlashTimes > st[o.OracleAddress] {
@@ -1015,6 +1030,10 @@ func (w *world) scenarioRebond() {
 	if w.rng.Intn(3) == 0 {
 		w.randomClaim()
 	}
+	// the undelegation made by the removal has to mature before UnbondedOracle is accepted
+	if w.rng.Intn(6) != 0 {
+		w.opEndBlock(3)
+	}
 	if w.opUnbond(x.id) != "ok" {
 		return
 	}
@@ -1223,7 +1242,13 @@ func (w *world) signedTx(priv cryptotypes.PrivKey, msgs ...sdk.Msg) ([]byte, err
 	return cfg.TxEncoder()(b.GetTx())
 }
 
-// block delivers transactions in one real block (same steps as BaseSuite.Commit, with Txs).
+// the harness clock: block time advances by blockInterval per block (monotonic over the whole run)
+const blockInterval = 10 * time.Minute
+
+var clock = tmtime.Now()
+
+// block runs one real block (same steps as BaseSuite.Commit: FinalizeBlock with every module's begin/end blocker, Commit,
+// ProcessProposal for the next height) with the given transactions, at the harness clock.
 func (w *world) block(txs ...[]byte) []*abci.ExecTxResult {
 	s := w.s
 	ci := abci.CommitInfo{Round: 1}
@@ -1233,16 +1258,21 @@ func (w *world) block(txs ...[]byte) []*abci.ExecTxResult {
 			w.t.Fatal(err)
 		}
 		ci.Votes = append(ci.Votes, abci.VoteInfo{Validator: abci.Validator{Address: pk.Address(), Power: val.VotingPower}, BlockIdFlag: tenderminttypes.BlockIDFlagCommit})
+		si := slashingtypes.NewValidatorSigningInfo(sdk.ConsAddress(pk.Address()), s.Ctx.BlockHeight(), 0, time.Unix(0, 0), false, 0)
+		if err = s.App.SlashingKeeper.SetValidatorSigningInfo(s.Ctx, sdk.ConsAddress(pk.Address()), si); err != nil {
+			w.t.Fatal(err)
+		}
 	}
 	h := s.Ctx.BlockHeight()
-	res, err := s.App.FinalizeBlock(&abci.RequestFinalizeBlock{Height: h, Time: tmtime.Now(), ProposerAddress: s.Ctx.BlockHeader().ProposerAddress, DecidedLastCommit: ci, Txs: txs})
+	clock = clock.Add(blockInterval)
+	res, err := s.App.FinalizeBlock(&abci.RequestFinalizeBlock{Height: h, Time: clock, ProposerAddress: s.Ctx.BlockHeader().ProposerAddress, DecidedLastCommit: ci, Txs: txs})
 	if err != nil {
 		w.t.Fatalf("FinalizeBlock: %v", err)
 	}
 	if _, err = s.App.Commit(); err != nil {
 		w.t.Fatal(err)
 	}
-	if _, err = s.App.ProcessProposal(&abci.RequestProcessProposal{Height: h + 1, Time: tmtime.Now(), ProposerAddress: s.Ctx.BlockHeader().ProposerAddress, ProposedLastCommit: ci}); err != nil {
+	if _, err = s.App.ProcessProposal(&abci.RequestProcessProposal{Height: h + 1, Time: clock, ProposerAddress: s.Ctx.BlockHeader().ProposerAddress, ProposedLastCommit: ci}); err != nil {
 		w.t.Fatal(err)
 	}
 	s.Ctx = s.App.GetContextForFinalizeBlock(nil)
@@ -1276,7 +1306,7 @@ func (w *world) txLevel() {
 	pp := w.k.GetParams(w.s.Ctx)
 	pp.SignedWindow = 30000 // no slashing while the transaction blocks run
 	_ = w.k.SetParams(w.s.Ctx, &pp)
-	w.s.Commit()
+	w.block()
 	regs := w.registered()
 	var tgt *orcView
 	for i := range regs {
